@@ -1,4 +1,5 @@
 """C07 — write capability is required to author entries and is never lost."""
+import re
 from . import mir, tables
 from .mir import trace, origin_summary, callee_matches
 from .common import find_calls, one_call, call_outcomes, follow_value, Ensures
@@ -466,6 +467,110 @@ def r12(ctx):
     ctx.share("C07.R12", C14.r3, "C14.R3", floor=4)
 
 
+def r13(ctx):
+    """"no ... reopen of the store downgrades it" / "a replica imported with read-only capability never produces ...": what a
+    document is opened with is what is stored for it - Store::load_replica_info evaluated on (no row, a row, a row that does not
+    decode, a failing read): the row is looked up under the document's own id, the capability is Capability::from_raw of exactly
+    that row's kind and bytes (R8 decides from_raw itself), ReplicaInfo::new keeps it as given; an unknown document is NotFound.
+    Store::new_replica stores the *write* capability of the secret it was given and opens the document of that secret"""
+    from . import feval as E, coll
+    f = ctx.facts
+    LRI = "store::fs::Store::load_replica_info"
+    b = f.body(LRI)
+    ctx.touch(b, f.body("sync::ReplicaInfo::new"))
+    for row in ("absent", "present", "undecodable", "read-fails"):
+        C = coll.Collections(f)
+        log = []
+
+        def oracle(kind, name, payload, site):
+            if kind != "call":
+                return None
+            t, args, it = payload
+            names = [it.tokname(a).strip("&*") for a in args]
+            if name == "tables" and callee_matches(t, r"store::fs::Store::tables$"):
+                it.heap["tables"] = E.struct(f, "store::fs::tables::Tables", **{fd["name"]: E.Tok(fd["name"] + "-table") for fd in f.adt("store::fs::tables::Tables")["variants"][0]["fields"]})
+                return E.Ok(E.href("tables"))
+            if name == "get" and names and names[0].endswith("-table"):
+                log.append(("get", names[0], names[1]))
+                if row == "read-fails":
+                    return E.Err(E.Tok("storage-error"))
+                return E.Ok(E.NONE if row == "absent" else E.Some(E.Tok("guard")))
+            if name == "value" and names and names[0] == "guard":
+                return ("tuple", [E.Tok("row-kind"), E.Tok("row-bytes")])
+            if callee_matches(t, r"sync::Capability::from_raw$"):
+                log.append(("from_raw", names[0], names[1]))
+                return E.Err(E.Tok("bad-capability")) if row == "undecodable" else E.Ok(E.Tok("capability-of(%s,%s)" % (names[0], names[1])))
+            if name == "as_bytes" and len(args) == 1:
+                return E.Tok("bytes(%s)" % names[0])
+            if name == "id" and names and names[0].startswith("capability-of"):
+                return E.Tok("id(%s)" % names[0])
+            if name == "insert" and names and "open_replicas" in names[0]:
+                log.append(("mark-open", names[1]))
+                return E.Int(1)
+            if name in ("into", "from") and len(args) == 1:
+                return args[0]
+            return C.handle(kind, name, payload, site)
+        key = "load[row=%s]" % row
+        try:
+            ret, itp = E.run_it(f, LRI, [E.href("self"), E.href("id")], {"self": E.Tok("store"), "id": E.Tok("doc-id")}, oracle)
+            r = itp.resolve(ret)
+            got = E.describe(r, f)
+            cap = None
+            if r is not None and r[0] == "adt" and r[1] == E.RESULT and r[2] == 0:
+                info = itp.resolve(r[3][0])
+                cap = E.describe(itp.resolve(E.field(f, info, "sync::ReplicaInfo", "capability")), f)
+                closed = E.describe(itp.resolve(E.field(f, info, "sync::ReplicaInfo", "closed")), f)
+        except E.Unsupported as e:
+            ctx.bad("C07.R13", LRI, key, "UNSUPPORTED-FORM: %s" % e, b.sp)
+            continue
+        gets = [x for x in log if x[0] == "get"]
+        problems = []
+        if gets != [("get", "namespaces-table", "bytes(doc-id)")]:
+            problems.append("reads %s, spec: the capability table under the document's own id" % gets)
+        if row == "present":
+            if cap != "capability-of(row-kind,row-bytes)" or closed != "0":
+                problems.append("opened with capability %s (closed=%s), spec: from_raw(the row's kind, the row's bytes), open" % (cap, closed))
+        else:
+            if not got.startswith("Err"):
+                problems.append("returns %s, spec an error" % got)
+            if row == "absent" and "NotFound" not in got:
+                problems.append("an unknown document must be reported as NotFound, got %s" % got)
+            if [x for x in log if x[0] == "mark-open"]:
+                problems.append("a document that could not be loaded is marked open: %s" % log)
+        ctx.check(not problems, "C07.R13", LRI, key, "returns %s, capability %s, effects %s" % (got[:60], cap, log), b.sp, bad_detail="; ".join(problems) + " - effects %s" % log)
+    # new_replica
+    nr = f.body("store::fs::Store::new_replica")
+    ctx.touch(nr)
+    log = []
+
+    def oracle2(kind, name, payload, site):
+        if kind != "call":
+            return None
+        t, args, it = payload
+        names = [it.tokname(a).strip("&*") for a in args]
+        if callee_matches(t, r"store::fs::Store::import_namespace$"):
+            log.append(("import_namespace", E.describe(it.resolve(args[1]), f)))
+            return E.Ok(E.Tok("outcome"))
+        if callee_matches(t, r"store::fs::Store::open_replica$"):
+            log.append(("open_replica", names[1]))
+            return E.Ok(E.Tok("replica"))
+        if name == "id" and names and names[0] == "secret":
+            return E.Tok("id(secret)")
+        if name in ("into", "from") and len(args) == 1 and names[0] == "secret":
+            cands = [p for p in f.bodies if re.match(r"^<sync::Capability as std::convert::From<keys::NamespaceSecret>>::from$", p)]
+            if cands:
+                return it.call_body(cands[0], args, 1)
+        return None
+    try:
+        ret, itp = E.run_it(f, nr.path, [E.href("self"), E.Tok("secret")], {"self": E.Tok("store")}, oracle2)
+        got = E.describe(itp.resolve(ret), f)
+    except E.Unsupported as e:
+        got = "UNSUPPORTED-FORM: %s" % e
+    ok = got == "Ok(replica)" and log == [("import_namespace", "Write(secret)"), ("open_replica", "id(secret)")]
+    ctx.check(ok, "C07.R13", nr.path, "create-stores-the-write-capability", "returns %s after %s; spec: import Capability::Write(the secret), then open the document of that secret" % (got, log), nr.sp)
+    ctx.floor("C07.R13", 5)
+
+
 def run(ctx):
     ctx.run_rule("C07.R1", r1)
     ctx.run_rule("C07.R2", r2)
@@ -479,3 +584,4 @@ def run(ctx):
     ctx.run_rule("C07.R10", r10)
     ctx.run_rule("C07.R11", r11)
     ctx.run_rule("C07.R12", r12)
+    ctx.run_rule("C07.R13", r13)
